@@ -318,10 +318,16 @@ impl Format {
                         }
                     }
                     Token::WeekdayDecimal => {
-                        return Err(HifitimeError::Parse {
-                            source: ParsingError::UnknownFormat,
-                            details: "parsing the weekday as a decimal is not supported",
-                        });
+                        // C89 counts from Sunday. The weekday is checked against the date, like a weekday name.
+                        match sub_str.parse::<u8>() {
+                            Ok(day) if day <= 6 => weekday = Some(Weekday::from(day + 6)),
+                            _ => {
+                                return Err(HifitimeError::Parse {
+                                    source: ParsingError::ValueError,
+                                    details: "could not parse weekday number",
+                                })
+                            }
+                        }
                     }
                     Token::MonthName | Token::MonthNameShort => {
                         match MonthName::from_str(sub_str) {
